@@ -143,6 +143,7 @@ def run_units(unit_names, tier, jobs=None):
                 t = texts[(o['unit'], o['idx'])]
                 o2 = dict(o)
                 o2['smt2'], o2['status'] = t[0], None
+                o2['allow_weak'] = True     # last resort after the long budget: counterexample of the weakened query
                 if t[1]:
                     o2['smt2_lite'] = t[1]
                 if t[2]:
